@@ -362,3 +362,144 @@ pub fn explore<O>(
     }
     (stats, capped)
 }
+
+// ---------------------------------------------------------------------------------------------
+// Variant for code under test that takes no locks (added for C33): a released thread is waited for
+// until it reaches its next gate or finishes; the /proc futex sampling (which can misclassify a
+// thread that is merely slow to be scheduled on a heavily loaded machine, making replays diverge)
+// is not used. Not suitable when the code under test can block on a lock held by a parked thread.
+// ---------------------------------------------------------------------------------------------
+
+/// Like [`run`], but never classifies a thread as blocked: waits (up to 60 s, then machinery error)
+/// until every released thread is at a gate or finished.
+pub fn run_lockfree(bodies: Vec<Body>, prefix: &[usize]) -> Execution {
+    let n = bodies.len();
+    let sh = Arc::new(Shared {
+        m: Mutex::new((0..n).map(|_| TState { phase: Phase::Running, go: false, tid: None }).collect()),
+        cv: Condvar::new(),
+    });
+    for (i, body) in bodies.into_iter().enumerate() {
+        let sh2 = sh.clone();
+        std::thread::Builder::new()
+            .name(format!("vthr-{i}"))
+            .spawn(move || {
+                CUR.with(|c| *c.borrow_mut() = Some((sh2.clone(), i)));
+                gate(&sh2, i, "start");
+                let r = crate::quiet_catch(body);
+                let mut g = sh2.m.lock().unwrap();
+                g[i].phase = match r {
+                    Ok(()) => Phase::Done,
+                    Err(m) => Phase::Panicked(m),
+                };
+                sh2.cv.notify_all();
+                drop(g);
+                CUR.with(|c| *c.borrow_mut() = None);
+            })
+            .expect("spawn");
+    }
+    let mut exec = Execution { points: vec![], deadlock: false, blocked: vec![], panics: vec![], diverged: None };
+    let mut last: Option<usize> = None;
+    loop {
+        // wait until nobody is Running
+        let deadline = Instant::now() + Duration::from_secs(60);
+        let mut g = sh.m.lock().unwrap();
+        while g.iter().any(|t| t.phase == Phase::Running) {
+            if Instant::now() > deadline {
+                crate::machinery_error("thrsched::run_lockfree: a released thread did not reach a gate within 60 s");
+            }
+            let (g2, _) = sh.cv.wait_timeout(g, Duration::from_millis(50)).unwrap();
+            g = g2;
+        }
+        let mut enabled: Vec<usize> = (0..n).filter(|&i| matches!(g[i].phase, Phase::AtGate(_))).collect();
+        if let Some(l) = last {
+            if let Some(pos) = enabled.iter().position(|&x| x == l) {
+                enabled.remove(pos);
+                enabled.insert(0, l);
+            }
+        }
+        if enabled.is_empty() {
+            for i in 0..n {
+                if let Phase::Panicked(m) = &g[i].phase {
+                    exec.panics.push((i, m.clone()));
+                }
+            }
+            return exec;
+        }
+        let gates = enabled.iter().map(|&i| if let Phase::AtGate(l) = &g[i].phase { l.clone() } else { String::new() }).collect();
+        let k = exec.points.len();
+        let chosen = if k < prefix.len() {
+            if prefix[k] >= enabled.len() {
+                exec.diverged = Some(format!("prefix choice {} out of range {} at point {k}", prefix[k], enabled.len()));
+                drop(g);
+                release_all(&sh);
+                return exec;
+            }
+            prefix[k]
+        } else {
+            0
+        };
+        let t = enabled[chosen];
+        exec.points.push(Point { enabled, gates, chosen });
+        last = Some(t);
+        g[t].phase = Phase::Running;
+        g[t].go = true;
+        sh.cv.notify_all();
+    }
+}
+
+/// Stateless DFS exactly as [`explore`], with the function that performs one execution supplied by
+/// the caller ([`run`] or [`run_lockfree`]).
+pub fn explore_with<O>(
+    runner: &dyn Fn(Vec<Body>, &[usize]) -> Execution,
+    mk: &dyn Fn() -> (Vec<Body>, O),
+    check: &mut dyn FnMut(&Execution, O),
+    preemption_bound: Option<usize>,
+    max_executions: u64,
+) -> (ExploreStats, bool) {
+    let mut stats = ExploreStats { executions: 0, decision_points: 0, max_points: 0, deadlocks: 0 };
+    let mut stack: Vec<Vec<usize>> = vec![vec![]];
+    let mut capped = false;
+    while let Some(prefix) = stack.pop() {
+        if stats.executions >= max_executions {
+            capped = true;
+            break;
+        }
+        let (bodies, obs) = mk();
+        let x = runner(bodies, &prefix);
+        if let Some(d) = &x.diverged {
+            crate::machinery_error(&format!("thrsched: replay diverged: {d}"));
+        }
+        stats.executions += 1;
+        stats.decision_points += x.points.len() as u64;
+        stats.max_points = stats.max_points.max(x.points.len());
+        if x.deadlock {
+            stats.deadlocks += 1;
+        }
+        let mut preemptions_before = vec![0usize; x.points.len() + 1];
+        for i in 0..x.points.len() {
+            let p = &x.points[i];
+            let prev_thread = if i == 0 { None } else { Some(x.points[i - 1].enabled[x.points[i - 1].chosen]) };
+            let running_still_enabled = prev_thread.map(|t| p.enabled[0] == t).unwrap_or(false);
+            let is_preempt = running_still_enabled && p.chosen != 0;
+            preemptions_before[i + 1] = preemptions_before[i] + usize::from(is_preempt);
+        }
+        for i in (prefix.len()..x.points.len()).rev() {
+            let p = &x.points[i];
+            let prev_thread = if i == 0 { None } else { Some(x.points[i - 1].enabled[x.points[i - 1].chosen]) };
+            let running_still_enabled = prev_thread.map(|t| p.enabled[0] == t).unwrap_or(false);
+            for alt in 1..p.enabled.len() {
+                let cost = preemptions_before[i] + usize::from(running_still_enabled);
+                if let Some(b) = preemption_bound {
+                    if cost > b {
+                        continue;
+                    }
+                }
+                let mut np: Vec<usize> = x.choices()[..i].to_vec();
+                np.push(alt);
+                stack.push(np);
+            }
+        }
+        check(&x, obs);
+    }
+    (stats, capped)
+}
